@@ -3,6 +3,7 @@
   functions are sufficient. Only property theorems and non-vacuity examples live here; helper lemmas are in Lemmas/.
 -/
 import XzVerif.Model.Container
+import XzVerif.Model.XzStruct
 import XzVerif.Gen.C02
 import XzVerif.Lemmas.C02Vli
 import XzVerif.Lemmas.C02Stream
@@ -11,6 +12,7 @@ import XzVerif.Lemmas.C02Bound
 import XzVerif.Lemmas.C02Filter
 import XzVerif.Lemmas.C02Block
 import XzVerif.Lemmas.C02Index
+import XzVerif.Lemmas.C02Uncomp
 
 namespace XzVerif.C02
 open XzVerif XzVerif.Vli XzVerif.Container
@@ -107,6 +109,23 @@ theorem vli_minimal (b t : List UInt8) (v : Nat) (h : vliDecode b = some (v, t))
 /-- Single-call `lzma_vli_encode` succeeds exactly when the value is valid and fits, and then writes `vliEncode v`. -/
 theorem vli_encode_single (v avail : Nat) (b : List UInt8) (h : vliEncodeSingle v avail = .ok b) :
     b = vliEncode v ∧ v ≤ VLI_MAX ∧ b.length ≤ avail := vliEncodeSingle_ok v avail b h
+
+/-- Multi-call mode (`lzma_vli_decode` with a `vli_pos`, as the Index and Block decoders use it) run over a whole
+    buffer finishes an integer exactly when the single-call specification decoder accepts it, with the same value and
+    the same number of bytes consumed. -/
+theorem vli_multicall_agrees (inp : List UInt8) (v used : Nat) :
+    (∃ p, vliDecLoop inp 0 0 0 = (.streamEnd, v, p, used)) ↔ (0 < used ∧ used ≤ inp.length ∧ vliDecode inp = some (v, inp.drop used)) := by
+  constructor
+  · rintro ⟨p, h⟩
+    obtain ⟨h1, h2, h3, -⟩ := vliDecLoop_streamEnd inp v p used h
+    exact ⟨h2, h3, h1⟩
+  · rintro ⟨h0, hle, h⟩
+    obtain ⟨hl, hlen⟩ := vliDecLoop_of_decodeAux inp 0 0 0 v (inp.drop used) h
+    refine ⟨0 + (inp.length - (inp.drop used).length), ?_⟩
+    rw [hl]
+    simp only [Nat.zero_mul, Nat.shiftLeft_zero, Nat.zero_add, List.length_drop]
+    have : inp.length - (inp.length - used) = used := by omega
+    rw [this]
 
 example : vliDecode (vliEncode 300 ++ [7]) = some (300, [7]) := by decide
 example : vliDecode [0x80, 0x00] = none := by decide                       -- padded encoding of 0 is rejected
@@ -248,6 +267,47 @@ theorem block_bound_sufficient (n check hs : Nat) (hb : lzma2Bound n ≠ 0) (hc 
   rw [blockBufferBound64_eq, if_neg hb, ← hl2]
   unfold ceil4
   omega
+
+/-- The LZMA2 stream `block_encode_uncompressed` writes (3-byte header per chunk of ≤ 64 KiB, data, end marker) has
+    exactly the size `lzma2_bound` computes. -/
+theorem uncompressed_chunks_length (data : List UInt8) :
+    (lzma2UncompressedChunks data).length = uncompressedChunksSize data.length := lzma2UncompressedChunks_length data
+
+/-- `lzma_block_uncomp_encode` — the fall-back every single-call encoder takes when the data does not compress —
+    given `out_size − out_pos ≥ lzma_block_buffer_bound64(n) ≠ 0` succeeds (so never LZMA_BUF_ERROR) and writes at most
+    `lzma_block_buffer_bound64(n)` bytes. (Check None/CRC32/CRC64; SHA-256 has the largest Check the bound already
+    budgets for, but its digest is not modelled in this file.) -/
+theorem block_uncomp_encode_fits (check : Nat) (data cv : List UInt8) (avail : Nat)
+    (hcv : checkValue check data = some cv) (hb : blockBufferBound64 data.length ≠ 0)
+    (ha : blockBufferBound64 data.length ≤ avail) :
+    ∃ b, blockUncompEncode check data avail = .ok b ∧ b.length ≤ blockBufferBound64 data.length :=
+  blockUncompEncode_fits check data cv avail hcv hb ha
+
+example : (blockUncompEncode 1 [1, 2, 3] (blockBufferBound64 3)).toOption.isSome = true := by decide +kernel
+
+/-- Every stored field of the Block that `lzma_block_uncomp_encode` writes is truthful: the header's first byte gives its
+    length, it decodes to Compressed Size = real length of the LZMA2 data that follows, Uncompressed Size = input length,
+    filter = LZMA2 with the minimum dictionary; then the chunks, 0–3 zero bytes to a multiple of four, and the Check of
+    the input; and nothing is written past `out_size`. -/
+theorem block_uncomp_encode_valid (check : Nat) (data b : List UInt8) (avail : Nat)
+    (h : blockUncompEncode check data avail = .ok b) :
+    ∃ hdr cv, checkValue check data = some cv ∧
+      b = hdr ++ lzma2UncompressedChunks data ++ List.replicate ((4 - (lzma2UncompressedChunks data).length % 4) % 4) (0 : UInt8) ++ cv ∧
+      hdr.length = ((hdr.getD 0 0).toNat + 1) * 4 ∧
+      (∀ t, blockHeaderDecode check (hdr ++ t) = .ok { compressedSize := some (lzma2UncompressedChunks data).length,
+                                                         uncompressedSize := some data.length,
+                                                         filters := [⟨FILTER_LZMA2, [0x00]⟩] }) ∧
+      b.length ≤ avail := blockUncompEncode_valid check data b avail h
+
+/-- Full statement of "encoder output is a valid instance of the format" for an arbitrary Stream encoder `encode`
+    (filters, Check ID, data ↦ bytes): the structural validator of Model/XzStruct.lean accepts the bytes as an encoding
+    of `data`. NOT proved: liblzma's LZMA/LZMA2 encoders are not modelled in this file. What is proved is the part for
+    the uncompressed fall-back (`block_uncomp_encode_valid`) and the round-trip theorems of every field codec the
+    validator relies on; for the real encoders the statement is CHECKED on every run: their output for generated
+    (configuration, data) is fed to this very validator (`valxz`/`valblock` ops) and to an independent Python parser. -/
+def encoder_output_valid_statement (encode : List FilterOpts → Nat → List UInt8 → Res (List UInt8)) : Prop :=
+  ∀ fs check data out, encode fs check data = .ok out →
+    ∃ summary, XzStruct.validateXz (ByteArray.mk out.toArray) check (ByteArray.mk data.toArray) = .ok summary
 
 /-- `lzma_stream_buffer_bound(n)` = Block bound + both 12-byte headers + the largest possible one-Record Index;
     a one-Record Index never needs more than INDEX_BOUND, an empty one needs 8 bytes. -/
